@@ -28,7 +28,7 @@ var c17Fams = []pagerFam{
 }
 
 var (
-	c17Seps  = []string{" ", " | ", ""}
+	c17Seps  = []string{" ", " | ", "", "|", ", ", "/"}
 	c17Wraps = []string{"", "li", "span"}
 	c17Cur   = []string{"plain", "b", "strong", "span", "paren"}
 	c17Href  = []string{"abs", "rootrel"}
@@ -221,7 +221,7 @@ func init() {
 	eng.Register(&eng.Prop{
 		ID:        "C17",
 		DesignRef: "§5 C17",
-		Rule: "every (N in 2..12, k in 1..N) x 8 URL families x pager markups (separator, wrapper, current-page decoration, absolute/root-relative hrefs, pager before/after article, trailing slash on path families) for PageNumber; " +
+		Rule: "every (N in 2..12, k in 1..N) x 8 URL families x pager markups (separator incl. ones glued to the numbers, wrapper, current-page decoration, absolute/root-relative hrefs, pager before/after article, trailing slash on path families) for PageNumber; " +
 			"x {Prev,Previous} x 3 placements of the labelled anchors for PrevNext; quick varies at most one markup dimension at a time, thorough takes the full product. Oracle: next = link(k+1), prev = link(k-1). " +
 			"Non-trivial = inner pages (1<k<N), where both links are demanded.",
 		Enumerate: c17Enumerate,
